@@ -203,6 +203,38 @@ def observe(fn):
         return ('raise', e)
 
 
+class Falsy:
+    """A result that is false in a boolean context (only None means "no result")."""
+
+    def __bool__(self):
+        return False
+
+
+class Sizeless:
+    def __len__(self):
+        return 0
+
+
+class Unjudgeable:
+    """Nobody has any business asking for the truth value of a result."""
+
+    def __bool__(self):
+        raise AssertionError('truth value of an adaptation result was taken')
+
+
+def mkval(style, role):
+    """A value for one role of a case; distinct roles get distinct objects in every style."""
+    if style == 1:
+        return Falsy()
+    if style == 2:
+        return {'conform': 0, 'adapt': '', 'alt': False}.get(role, ()) if not role.startswith('hook') else [(), 0.0, b''][int(role[4:]) % 3]
+    if style == 3:
+        return Unjudgeable()
+    if style == 4:
+        return Sizeless()
+    return object()
+
+
 def matches(exp, got, obj, iface):
     if exp[0] == 'could-not-adapt':
         return got[0] == 'raise' and type(got[1]) is TypeError and len(got[1].args) == 3 and \
@@ -219,8 +251,11 @@ def run_case(ctx, rng, job):
         for idx in range(me, len(prod), nchunks):
             conform, provided, hooks, alt, custom = prod[idx]
             log = []
-            state = {'conform_value': object(), 'adapt_value': object(), 'alt': object(),
-                     'hook_values': [object() for _ in hooks], 'hook_excs': [Marker('hook%d' % n) for n in range(len(hooks))],
+            st = idx % 5
+            ctx.count('value_style[%d]' % st)
+            state = {'conform_value': mkval(st, 'conform'), 'adapt_value': mkval(st, 'adapt'), 'alt': mkval(st, 'alt'),
+                     'hook_values': [mkval(st, 'hook%d' % n) for n in range(len(hooks))],
+                     'hook_excs': [Marker('hook%d' % n) for n in range(len(hooks))],
                      'adapt_exc': Marker('adapt')}
             if conform.startswith(('raise-', 'get-')):
                 state['conform_exc'] = EXC[conform.split('-')[1]]('from conform')
@@ -328,7 +363,7 @@ def registry_hook(ctx, rng):
                 if rng.random() < 0.3:
                     directlyProvides(o, rng.choice(R))
                 t = rng.choice(T)
-                alt = object()
+                alt = mkval(rng.randrange(5), 'alt')
                 exp = reg.queryAdapter(o, t, '', alt)
                 if t.providedBy(o):
                     exp = o
@@ -359,8 +394,10 @@ def class_objects(ctx):
                 for hooks in hook_seqs(2):
                     for alt in ALT:
                         log = []
-                        state = {'conform_value': object(), 'alt': object(), 'conform_exc': TypeError('from conform'),
-                                 'hook_values': [object() for _ in hooks], 'hook_excs': [Marker('hook%d' % n) for n in range(len(hooks))]}
+                        st = (len(hooks) + hooks.count('V')) % 5
+                        state = {'conform_value': mkval(st, 'conform'), 'alt': mkval(st, 'alt'), 'conform_exc': TypeError('from conform'),
+                                 'hook_values': [mkval(st, 'hook%d' % n) for n in range(len(hooks))],
+                                 'hook_excs': [Marker('hook%d' % n) for n in range(len(hooks))]}
                         iface = InterfaceClass('IT', (Interface,), {}, __module__=util.fresh_module())
                         if kind == 'unbound':
                             def __conform__(self, proto):
@@ -423,7 +460,8 @@ def reentrant_hooks(ctx):
                 iface = InterfaceClass('IT', (Interface,), {}, __module__=mod)
                 inner = InterfaceClass('IInner', (Interface,), {}, __module__=mod)
                 obj, obj2 = type('Obj', (object,), {})(), type('Obj2', (object,), {})()
-                state = {'alt': object(), 'hook_values': [object() for _ in hooks],
+                st = (len(hooks) + hooks.count('V') + (alt == 'given')) % 5
+                state = {'alt': mkval(st, 'alt'), 'hook_values': [mkval(st, 'hook%d' % n) for n in range(len(hooks))],
                          'hook_excs': [Marker('hook%d' % n) for n in range(len(hooks))], 'bad_args': []}
                 hs = []
                 for n, h in enumerate(hooks):
